@@ -125,7 +125,7 @@ def opname(o):
 def judge(case, evs, part, cont_evs=None):
     """evs: parsed events of the stepping run; cont_evs: of the ContinueScript run (or None)"""
     script, stack, flags, sv = case['script'], case['stack'], case['flags'], case['sv']
-    wit = dict(id=case['id'], script=script.hex(), stack=[x.hex() for x in stack], flags=flags, sv=sv)
+    wit = dict(id=case['id'], script=script.hex(), stack=[x.hex() for x in stack] if len(stack) < 40 else ['%d items' % len(stack), stack[0].hex()], flags=flags, sv=sv, succ=case.get('succ', b'').hex())
     part.evaluations += 1
     sc = [e for k, e in evs if k == 'SC']
     if any(k == 'CRASH' for k, e in evs):
@@ -155,6 +155,9 @@ def judge(case, evs, part, cont_evs=None):
             part.violation('oversize-script-accepted', wit)
         return
     if not u[0].ret:
+        if sv == TAPSCRIPT and len(stack) > MAX_STACK_SIZE and u[0].err == 'STACK_SIZE':
+            part.count('outcome', 'fail:STACK_SIZE(setup)')
+            return
         part.violation('setup-fails:%s' % u[0].err, wit)
         return
     steps = [e for k, e in evs if k == 'S']
@@ -170,7 +173,11 @@ def judge(case, evs, part, cont_evs=None):
         elif not impl_ok:
             part.violation('tapscript-op-success:not-honoured', wit)
         return
-    sess = Session(script, stack, flags, sv)
+    sess = Session(script, stack, flags, sv, successor=case.get('succ', b''))
+    if sess.prefail:
+        # tapscript with more than 1000 initial stack items: must be refused before anything executes
+        part.violation('tapscript-initial-stack-over-1000-not-refused', wit)
+        return
     if sess.done:
         if steps or not u[0].done:
             part.violation('empty-script-not-done', wit)
@@ -194,8 +201,8 @@ def judge(case, evs, part, cont_evs=None):
         part.violation('%s:%s%s' % (verdict, lastop, ':tapscript' if sv == TAPSCRIPT else ''), wit)
         return
     if nonpush >= 3 or (info['outcome'] or '').startswith('fail'):
-        part.nontrivial.add(nt_hash(script, tuple(stack), flags, sv))
-    part.sample(dict(script=script.hex(), stack=[x.hex() for x in stack], flags=flags, sv=SVNAME[sv], steps=info['steps'], outcome=info['outcome']))
+        part.nontrivial.add(nt_hash(script, tuple(stack), flags, sv, case.get('succ') or None))
+    part.sample(dict(script=script.hex()[:300], stack=[x.hex() for x in stack][:12], flags=flags, sv=SVNAME[sv], steps=info['steps'], outcome=info['outcome']))
     # run-to-completion twin
     if cont_evs is not None:
         c = [e for k, e in cont_evs if k == 'C']
@@ -221,25 +228,23 @@ def judge(case, evs, part, cont_evs=None):
                 part.violation('continue:error-differs', wit)
 
 
-def worker(job):
-    bindir = job[-1]
-    job = job[:-1]
-    part = Partial()
-    cases = gen_cases(job)
-    wd = scratch('c01')
+def execute(bindir, cases, part, tag='c01', post=None):
+    """run the cases through the harness (stepping run + ContinueScript twin) and judge them"""
+    wd = scratch(tag)
     try:
         hc = []
         for c in cases:
-            hc.append((c['id'], case_cmds(c['id'], c['script'], c['stack'], c['flags'], c['sv'])))
-            if c['layer'] in ('deep', 'p2sh', 'rand') or (c['layer'].startswith('exh') and zlib.crc32(c['id'].encode()) % 7 == 0):
+            extra = ['SS %s' % hexs(c['succ'])] if c.get('succ') else []
+            hc.append((c['id'], case_cmds(c['id'], c['script'], c['stack'], c['flags'], c['sv'], extra=extra)))
+            if c['layer'] in ('deep', 'p2sh', 'rand', 'limit') or (c['layer'].startswith('exh') and zlib.crc32(c['id'].encode()) % 7 == 0):
                 c['cont'] = True
-                hc.append((c['id'] + '/c', case_cmds(c['id'] + '/c', c['script'], c['stack'], c['flags'], c['sv'], tail=('C',))))
+                hc.append((c['id'] + '/c', case_cmds(c['id'] + '/c', c['script'], c['stack'], c['flags'], c['sv'], tail=('C',), extra=extra)))
         events, crashes, hangs = run_harness_cases(bindir, hc, wd)
         bycase = {c['id']: c for c in cases}
         for cr in crashes:
             base = cr.case_id.split('/')[0]
             c = bycase.get(base)
-            part.violation('crash:' + cr.key, dict(id=cr.case_id, script=c['script'].hex() if c else None, stack=[x.hex() for x in c['stack']] if c else None,
+            part.violation('crash:' + cr.key, dict(id=cr.case_id, script=c['script'].hex()[:4000] if c else None, stack=[x.hex() for x in c['stack']][:50] if c else None,
                                                     flags=c['flags'] if c else None, sv=c['sv'] if c else None, log=cr.log[-1500:]))
         for h in hangs:
             part.violation('hang', dict(id=h))
@@ -247,8 +252,17 @@ def worker(job):
             evs = parse_events(events.get(c['id'], []))
             cevs = parse_events(events.get(c['id'] + '/c', [])) if c.get('cont') else None
             judge(c, evs, part, cevs)
+            if post:
+                post(c, evs, part)
     finally:
         cleanup_scratch(wd)
+
+
+def worker(job):
+    bindir = job[-1]
+    job = job[:-1]
+    part = Partial()
+    execute(bindir, gen_cases(job), part)
     return part.dump()
 
 
